@@ -4,7 +4,7 @@
     and the "sources intact / no shared dict object" flag of the snapshot
     comparison (aliasing is not expressible in the pure model: the model
     side of that flag is the constant [true]). *)
-From InvokeVerif Require Export Model.ConfigModel Spec.C11Spec.
+From InvokeVerif Require Export Model.ConfigModel Spec.C11Spec Model.HeapMerge Spec.C11HeapSpec.
 From InvokeVerif Require Import Corr.C06Corr.
 
 Inductive obs11 :=
@@ -14,10 +14,17 @@ Inductive obs11 :=
 | OCloned (lo lc : list tree) (vo vc : tree) (intact : bool)
           (post : list (outcome * tree * tree * bool)).
 
-Record case := mk {
-  c_fs : fsys; c_init : init_args; c_pre : list sop; c_into : option tree;
-  c_post : list (bool * sop); c_obs : obs11
-}.
+(** Second kind of case: an object graph with deliberate sharing, one call of
+    the real merge_dicts / copy_dict / Config.clone, and the object graph
+    afterwards (old objects keep their address, objects created by the call are
+    numbered from |h0| in the order the harness discovers them). *)
+Inductive hop := HMerge (b u : addr) | HCopy (src : addr) | HClone (roots : list addr).
+Inductive hobs := HErr (e : err) | HOk (h : heap) (res : list addr).
+
+Inductive case :=
+| mk (c_fs : fsys) (c_init : init_args) (c_pre : list sop) (c_into : option tree)
+     (c_post : list (bool * sop)) (c_obs : obs11)
+| mkh (h0 : heap) (o : hop) (obs : hobs).
 
 Definition levels10 (c : cfg) : list tree :=
   [c_defaults c; c_collection c; c_system c; c_user c; c_project c; c_env c; c_runtime c;
@@ -53,34 +60,112 @@ Fixpoint aborted_at (tr : list (outcome * dict * tree)) (n : nat) : option nat :
   | (out, _, _) :: rest => if abnormal out then Some n else aborted_at rest (S n)
   end.
 
-Definition corr (c : case) : bool :=
-  match start (c_fs c) (c_init c) with
-  | Err e => match c_obs c with ONoObject e' => err_eqb e e' | _ => false end
+Definition corr_cfg (c_fs : fsys) (c_init : init_args) (c_pre : list sop) (c_into : option tree)
+           (c_post : list (bool * sop)) (c_obs : obs11) : bool :=
+  match start c_fs c_init with
+  | Err e => match c_obs with ONoObject e' => err_eqb e e' | _ => false end
   | Ok c0 =>
-      let '(so, tr) := srun (c_fs c) (sstart c0) (c_pre c) in
+      let '(so, tr) := srun c_fs (sstart c0) c_pre in
       match aborted_at tr 0 with
-      | Some n => match c_obs c with OAborted n' => Nat.eqb n n' | _ => false end
+      | Some n => match c_obs with OAborted n' => Nat.eqb n n' | _ => false end
       | None =>
-          match clone (c_fs c) (s_cfg so) (c_into c) with
-          | (_, OErr e) => match c_obs c with OCloneErr e' => err_eqb e e' | _ => false end
+          match clone c_fs (s_cfg so) c_into with
+          | (_, OErr e) => match c_obs with OCloneErr e' => err_eqb e e' | _ => false end
           | (cl, _) =>
-              match c_obs c with
+              match c_obs with
               | OCloned lo lc vo vc _ post =>
                   trees_equiv (levels10 (s_cfg so)) lo && trees_equiv (levels10 cl) lc &&
                   tree_eqb (Node (c_cache (s_cfg so))) vo && tree_eqb (Node (c_cache cl)) vc &&
-                  all2 post_eqb (run_post (c_fs c) so (sstart cl) (c_post c)) post
+                  all2 post_eqb (run_post c_fs so (sstart cl) c_post) post
               | _ => false
               end
           end
       end
   end.
 
-Definition spec (c : case) : bool :=
-  match c_obs c with
+(** ** Object graphs: the model's heap against the observed one, up to the
+    numbering of the objects created by the call *)
+Definition heap_fuel : nat := 64.
+
+Definition model_h (h0 : heap) (o : hop) : hobs :=
+  match o with
+  | HMerge b u => match merge_h heap_fuel b u h0 with Ok h => HOk h [] | Err e => HErr e end
+  | HCopy src => match copy_h heap_fuel src h0 with Ok (a, h) => HOk h [a] | Err e => HErr e end
+  | HClone roots => match clone_levels_h heap_fuel roots h0 with
+                    | Ok (l, h) => HOk h l
+                    | Err e => HErr e
+                    end
+  end.
+
+(** All (path, object) pairs below the roots, in traversal order. *)
+Definition walk (h : heap) (roots : list addr) : list (path * addr) :=
+  flat_map (fun r => hpaths depth_bound h r []) roots.
+
+(** Same node up to the identity of what the references point to (that is
+    checked along the paths). *)
+Definition hnode_like (a b : option hnode) : bool :=
+  match a, b with
+  | Some x, Some y =>
+      list_eqb (fun p q => String.eqb (fst p) (fst q) &&
+                           match snd p, snd q with
+                           | HLeaf v, HLeaf w => value_eqb v w
+                           | HRef _, HRef _ => true
+                           | _, _ => false
+                           end) x y
+  | None, None => true
+  | _, _ => false
+  end.
+
+Definition graphs_iso (hm : heap) (rm : list addr) (ho : heap) (ro : list addr) : bool :=
+  let wm := walk hm rm in
+  let wo := walk ho ro in
+  Nat.eqb (List.length wm) (List.length wo) &&
+  let z := combine wm wo in
+  forallb (fun mo => path_eqb (fst (fst mo)) (fst (snd mo)) &&
+                     hnode_like (HeapMerge.hget hm (snd (fst mo))) (HeapMerge.hget ho (snd (snd mo)))) z &&
+  (* the correspondence between addresses is one-to-one: same sharing *)
+  forallb (fun x => forallb (fun y => Bool.eqb (Nat.eqb (snd (fst x)) (snd (fst y)))
+                                               (Nat.eqb (snd (snd x)) (snd (snd y)))) z) z.
+
+Definition corr_heap (h0 : heap) (o : hop) (obs : hobs) : bool :=
+  match model_h h0 o, obs with
+  | HErr e, HErr e' => err_eqb e e'
+  | HOk hm rm, HOk ho ro =>
+      let old := old_addrs h0 in
+      Nat.eqb (List.length rm) (List.length ro) && graphs_iso hm (old ++ rm) ho (old ++ ro)
+  | _, _ => false
+  end.
+
+Definition corr (c : case) : bool :=
+  match c with
+  | mk f i pre into post obs => corr_cfg f i pre into post obs
+  | mkh h0 o obs => corr_heap h0 o obs
+  end.
+
+Definition spec_cfg (c_into : option tree) (c_post : list (bool * sop)) (c_obs : obs11) : bool :=
+  match c_obs with
   | OCloned lo lc vo vc intact post =>
-      C11Spec.spec_ok (c_into c) lo lc vo vc intact
+      C11Spec.spec_ok c_into lo lc vo vc intact
               (map (fun sp => (fst (fst sp), snd (fst (fst (snd sp))), snd (fst (snd sp)), snd (snd sp)))
-                   (combine (c_post c) post))
+                   (combine c_post post))
   | OCloneErr _ => false        (* cloning must not fail *)
   | _ => true                   (* no clone happened: nothing to judge *)
+  end.
+
+Definition spec_heap (h0 : heap) (o : hop) (obs : hobs) : bool :=
+  match obs with
+  | HErr _ => true     (* refusals (type conflict, a dict resized under iteration) are not C11's subject *)
+  | HOk h1 res =>
+      match o, res with
+      | HMerge b _, [] => merge_ok h0 h1 b
+      | HCopy src, [r] => copy_ok h0 h1 src r
+      | HClone roots, _ => clone_ok h0 h1 roots res
+      | _, _ => false
+      end
+  end.
+
+Definition spec (c : case) : bool :=
+  match c with
+  | mk _ _ _ into post obs => spec_cfg into post obs
+  | mkh h0 o obs => spec_heap h0 o obs
   end.
